@@ -372,15 +372,11 @@ def kill_points(chk, tool, shim, model_exe, work, tier, stats):
         st = dict(sc.stats.get('stale_copy', {}), copies=nc, shape=spec['name'])
         allstats.append(st)
         total += st.get('cases', 0) * 2
-        if st.get('same_size_damage_survives'):
-            stats['candidate_finding_same_size_damage'] = stats.get('candidate_finding_same_size_damage', 0) + st['same_size_damage_survives']
+        for what, rep in getattr(sc, 'known_same_size', [])[:2]:
+            # open known finding: suppressed only for this exact witness class; anything else above stays a plain violation
+            chk.violation('samesize_%dcopies' % nc, what, rep, finding_key='F-C09-same-size-stale-copy-unnoticed')
+        stats['known_finding_same_size_cases'] = stats.get('known_finding_same_size_cases', 0) + st.get('same_size_damage_survives', 0)
         shutil.rmtree(root, ignore_errors=True)
-    if stats.get('candidate_finding_same_size_damage'):
-        chk.notes.append('CANDIDATE FINDING (unchanged-tree behaviour, reported to the coordinator, not judged by this check): a NON-first content copy '
-                         'damaged without a change of size (one bit) survives a successful `sync` that has nothing else to write on a format-3 array '
-                         '(state_read compares sizes only): %d of %d such cases ended with copies that are not byte-identical' % (
-                             stats['candidate_finding_same_size_damage'], sum(1 for s_ in allstats if 'same_size_damage_survives' in s_) and
-                             sum((s_.get('copies', 1) - 1) for s_ in allstats if 'same_size_damage_survives' in s_)))
     stats['kill'] = allstats
     return total, sum(s.get('kills', 0) for s in allstats)
 
